@@ -470,6 +470,19 @@ def _real_run(arg):
                 top = wd / "mix.top"
                 top.write_text(Y_TOP % (6, 2, 2))
                 gen_coords(toppath=top, outpath=wd / "full.gro", name="t", box=np.array(box, float), max_force=5e4, nrewind=5, step_fudge=1.0)
+                # the coordinate file of the second run: rows of the residues named with -res are left out (the reader does not expect them),
+                # and a coordinate that the three-decimal format rounded onto the box edge is wrapped back into [0, box)
+                rows = (wd / "full.gro").read_text().splitlines()
+                bx = [float(x) for x in rows[-1].split()[:3]]
+                kept = []
+                for ln in rows[2:-1]:
+                    if ln[5:10].strip() == "RA":
+                        continue
+                    xyz = [float(ln[20 + 8 * i:28 + 8 * i]) for i in range(3)]
+                    xyz = [(v % b) if not (0.0 <= v < b) else v for v, b in zip(xyz, bx)]
+                    xyz = [0.0 if float("%.3f" % v) >= b else v for v, b in zip(xyz, bx)]
+                    kept.append(ln[:20] + "".join("%8.3f" % v for v in xyz))
+                (wd / "full.gro").write_text("%s\n%5d\n%s\n%s\n" % (rows[0], len(kept), "\n".join(kept), rows[-1]))
                 frng = random.Random(sd)
                 budget = {"n": 12}
 
